@@ -722,6 +722,7 @@ type Frame struct {
 	usedAt   map[*CallClause]bool
 	preCall  *State
 	rets     []retPoint
+	rangeCell *Cell // while a loop's own clauses are evaluated: that loop's range index cell ("rangeindex")
 }
 
 type retPoint struct {
@@ -938,7 +939,21 @@ func (fr *Frame) findLoops() {
 				}
 			}
 		}
+		if lo == 0 && len(li.head.Instrs) > 0 {
+			// range over a map or string: the header's Next has no position; its iterator is
+			// created at the "for" keyword of the range statement
+			if nx, ok := li.head.Instrs[0].(*ssa.Next); ok {
+				if rg, ok := nx.Iter.(*ssa.Range); ok && rg.Pos().IsValid() {
+					lo, hi = rg.Pos(), rg.Pos()
+				}
+			}
+		}
+		var bodyBlocks []*ssa.BasicBlock
 		for b := range li.body {
+			bodyBlocks = append(bodyBlocks, b)
+		}
+		sort.Slice(bodyBlocks, func(i, j int) bool { return bodyBlocks[i].Index < bodyBlocks[j].Index })
+		for _, b := range bodyBlocks {
 			if lo != 0 {
 				break
 			}
@@ -1161,6 +1176,10 @@ func (fr *Frame) loopHead(li *loopInfo, st *State) *State {
 		fr.con.usedLoops[li.ord] = true
 	}
 	headPos := loopPos(li)
+	if a := fr.autoRange(li); a != nil && !a.strIter {
+		fr.rangeCell = a.cell
+		defer func() { fr.rangeCell = nil }()
+	}
 	for k, lc := range invs {
 		g := fr.evalBool(lc.Expr, st, lc.Src)
 		p.oblige(fr.loopName(li, "inv-init", k+1), "inv-init", headPos, st.Guard, g, "loop invariant holds on entry: "+lc.Src)
@@ -1318,6 +1337,10 @@ func (fr *Frame) backEdge(li *loopInfo, st *State) {
 	p := fr.p
 	invs, decs := fr.loopClauses(li)
 	pos := loopPos(li)
+	if li.auto != nil && !li.auto.strIter {
+		fr.rangeCell = li.auto.cell
+		defer func() { fr.rangeCell = nil }()
+	}
 	if fr.con != nil {
 		k := 0
 		for _, lc := range fr.con.Loops {
